@@ -156,7 +156,7 @@ def footprints(cols, rows, shape, rps, kw, which):
 
 
 def fornav_all(cols, rows, data, dtype, rps, p, mwm, shape, fill, want_fp=True, fill_kw=True, ws_wsm=None,
-               layout="c", geo_layout="c"):
+               layout="c", geo_layout="c", masked=False):
     """One-shot fornav + weights/accums + footprints + write_grid_image_single, all from the real code."""
     kw = wkw(p)
     dt = np.dtype(dtype)
@@ -185,6 +185,18 @@ def fornav_all(cols, rows, data, dtype, rps, p, mwm, shape, fill, want_fp=True, 
         res["oneshot_c"] = oneshot(cols.copy(), rows.copy(), d.copy())
     if geo_layout != "c":
         res["oneshot_geo"] = oneshot(relayout(cols, geo_layout, 3.0), relayout(rows, geo_layout, 3.0), d.copy())
+    if masked:
+        # masked-array entry point: invalid pixels are masked (their stored value is arbitrary), the result is re-masked
+        with np.errstate(invalid="ignore"):
+            inval = np.isnan(d) | (d == dt.type(fill))
+        md = np.ma.masked_array(np.where(inval, dt.type(12345.0), d), mask=inval)
+        try:
+            n, out = fornav(cols.copy(), rows.copy(), a, md, rows_per_scan=rps, maximum_weight_mode=bool(mwm), **kws)
+            res["oneshot_masked"] = {"n": int(n), "is_masked": bool(isinstance(out, np.ma.MaskedArray)),
+                                     "mask": [bool(v) for v in np.ma.getmaskarray(out).ravel()],
+                                     "out": hexflat(np.ma.filled(out, fill))}
+        except Exception as e:
+            res["oneshot_masked"] = err(e)
     w = np.zeros(shape, np.float32)
     acc = np.zeros(shape, np.float32)
     pyfill = float(fill)
@@ -211,7 +223,8 @@ def run_fornav(c):
     cols, rows, data = unhex2(c["cols"]), unhex2(c["rows"]), unhex2(c["data"])
     fill = float.fromhex(c.get("fill", "nan"))
     return fornav_all(cols, rows, data, c["dtype"], int(c["rps"]), c["params"], c["mwm"], tuple(c["grid"]), fill,
-                      ws_wsm=c.get("ws_wsm"), layout=c.get("layout", "c"), geo_layout=c.get("geo_layout", "c"))
+                      ws_wsm=c.get("ws_wsm"), layout=c.get("layout", "c"), geo_layout=c.get("geo_layout", "c"),
+                      masked=bool(c.get("masked")))
 
 
 def run_scene(c):
@@ -238,7 +251,9 @@ def run_scene(c):
     out_chunks = tuple(tuple(int(v) for v in ax) for ax in c["out_chunks"])
     d = np.ascontiguousarray(data.astype(dt))
     R, C = lons.shape
-    def run_dask(lo, la, dd):
+    persist = bool(c.get("persist", False))
+
+    def run_dask(lo, la, dd, persist=persist):
         try:
             sw = SwathDefinition(xr.DataArray(da.from_array(lo, chunks=(in_rows, C)), dims=("y", "x")),
                                  xr.DataArray(da.from_array(la, chunks=(in_rows, C)), dims=("y", "x")))
@@ -247,15 +262,57 @@ def run_scene(c):
             if not np.isnan(fill):
                 kws["fill_value"] = fill
             out = rs.resample(da.from_array(dd, chunks=(in_rows, C)), rows_per_scan=rps, chunks=out_chunks,
-                              maximum_weight_mode=mwm, **kws)
+                              maximum_weight_mode=mwm, persist=persist, **kws)
             return {"out": hexflat(out.compute()), "dtype": str(out.dtype), "chunks": [list(a) for a in out.chunks],
-                    "in_chunks": list(rs.cache["ll2cr_result"].chunks[-2]) if hasattr(rs.cache["ll2cr_result"], "chunks") else None}
+                    "in_chunks": list(rs.cache["ll2cr_result"].chunks[-2]) if hasattr(rs.cache["ll2cr_result"], "chunks") else None,
+                    "kept_blocks": len(rs.cache["ll2cr_blocks"])}
         except Exception as e:
             return err(e)
     # numpy arrays behind the dask arrays in the requested memory layouts (same values)
     res["dask"] = run_dask(relayout(lons, geo_layout, 1e6), relayout(lats, geo_layout, 1e6), relayout(d, layout))
     if layout != "c" or geo_layout != "c":
         res["dask_c"] = run_dask(lons.copy(), lats.copy(), d.copy())
+    if persist:
+        res["dask_nopersist"] = run_dask(lons.copy(), lats.copy(), d.copy(), persist=False)
+    # a history of resample() calls on ONE resampler object, each compared with a fresh object by the harness
+    if c.get("history"):
+        hist = []
+        try:
+            sw = SwathDefinition(xr.DataArray(da.from_array(lons.copy(), chunks=(in_rows, C)), dims=("y", "x")),
+                                 xr.DataArray(da.from_array(lats.copy(), chunks=(in_rows, C)), dims=("y", "x")))
+            rs = dask_ewa.DaskEWAResampler(sw, area)
+        except Exception as e:
+            rs = None
+            hist.append(err(e))
+        for call in (c["history"] if rs is not None else []):
+            dd = d * dt.type(call["scale"]) + dt.type(call["shift"])
+            kws = dict(kw)
+            if not np.isnan(fill):
+                kws["fill_value"] = fill
+                dd = np.where(d == dt.type(fill), dt.type(fill), dd)
+            oc = tuple(tuple(int(v) for v in ax) for ax in call["out_chunks"])
+            ent = {}
+            for name, obj in (("same", rs), ("fresh", None)):
+                try:
+                    if obj is None:
+                        sw2 = SwathDefinition(xr.DataArray(da.from_array(lons.copy(), chunks=(in_rows, C)), dims=("y", "x")),
+                                              xr.DataArray(da.from_array(lats.copy(), chunks=(in_rows, C)), dims=("y", "x")))
+                        obj = dask_ewa.DaskEWAResampler(sw2, area)
+                    out = obj.resample(da.from_array(dd.copy(), chunks=(in_rows, C)), rows_per_scan=rps, chunks=oc,
+                                       maximum_weight_mode=bool(call["mwm"]), persist=bool(call["persist"]), **kws)
+                    ent[name] = {"out": hexflat(out.compute())}
+                except Exception as e:
+                    ent[name] = err(e)
+            hist.append(ent)
+        res["history"] = hist
+    # _new_chunks: the row chunk the resampler re-chunks its input to
+    try:
+        sw = SwathDefinition(xr.DataArray(da.from_array(lons.copy(), chunks=(int(c.get("probe_rows", in_rows)), C)), dims=("y", "x")),
+                             xr.DataArray(da.from_array(lats.copy(), chunks=(int(c.get("probe_rows", in_rows)), C)), dims=("y", "x")))
+        nc = dask_ewa.DaskEWAResampler(sw, area)._new_chunks(sw.lons, rps)
+        res["new_chunks"] = [int(nc[0]), int(nc[1])]
+    except Exception as e:
+        res["new_chunks"] = err(e)
     if c.get("legacy"):
         try:
             from pyresample.ewa import _legacy_dask_ewa
